@@ -38,9 +38,11 @@ def classify(ctx, b, s, t, key):
         ctx.check(key + '|not-nan', ok1, 'threshold built from `%s` is not dominated by a NaN rejection' % x, s.where(), found=b.guard_strings(s.bb))
         ctx.check(key + '|non-negative', ok2, 'threshold built from `%s` is not dominated by a sign test against 0.0' % x, s.where(), found=b.guard_strings(s.bb))
         return 'guarded'
-    m = re.match(r'^Option::flatten\((forward|backward)\{Option::None\{\} \| Option::Some\{0: \(Result::branch\(MapAccess::next_value\(map\)\) as Continue\)\.0\.0\}\}\)$', v)
+    m = re.match(r'^Option::flatten\(\w+\{Option::None\{\} \| Option::Some\{0: \(Result::branch\(MapAccess::next_value\(map\)\) as Continue\)\.0\.0\}\}\)$', v)
     if m:
-        raw = [l['ty'] for l in b.locals if l.get('name') == 'raw']
+        # the values taken from the map are deserialised as ThresholdPart: the user locals holding a next_value result (found by definition, not by name)
+        raw = [l['ty'] for i, l in enumerate(b.locals) if l.get('user') and l.get('name') and i > b.arg_count and
+               re.match(r'^\(Result::branch\(MapAccess::next_value\(map\)\) as Continue\)\.0$', S(b.local_term(i)))]
         ctx.check(key + '|part-type', raw and all(re.search(r'config::ThresholdPart$', t) for t in raw),
                   'per-direction value is deserialised as %s, not ThresholdPart' % raw, s.where(), sample=raw)
         return 'part'
